@@ -179,6 +179,12 @@ impl SemanticState {
                 !self.type_registry.is_reserved(&new_path),
                 "the item `{new_path}` is defined more than once (it is also a generated vftable type)"
             );
+            // `add_item` tolerates the exact same item again (for re-registered generated
+            // types); a second declaration is an error even when it repeats the first verbatim.
+            anyhow::ensure!(
+                self.type_registry.get(&new_path).is_none(),
+                "the item `{new_path}` is defined more than once"
+            );
             self.add_item(ItemDefinition {
                 visibility: definition.visibility.into(),
                 path: new_path,
@@ -227,6 +233,10 @@ impl SemanticState {
             anyhow::ensure!(
                 !self.type_registry.is_reserved(&extern_path),
                 "the item `{extern_path}` is defined more than once (it is also a generated vftable type)"
+            );
+            anyhow::ensure!(
+                self.type_registry.get(&extern_path).is_none(),
+                "the item `{extern_path}` is defined more than once"
             );
 
             self.add_item(ItemDefinition {
